@@ -158,7 +158,7 @@ class MITMProxyEventManager:
             # its previous request.
             req_ack_id = llsd.parse_xml(flow.request.content)["ack"]
             eq_manager = cap_data.region().eq_manager
-            cached_resp = eq_manager.get_cached_poll_response(req_ack_id)
+            cached_resp = eq_manager.get_cached_poll_response(req_ack_id, cap_data.base_url)
             if cached_resp:
                 LOG.warning("Had to serve a cached EventQueueGet due to client desync")
                 flow.response = mitmproxy.http.Response.make(
@@ -327,7 +327,7 @@ class MITMProxyEventManager:
                     # Serialize before remembering the response, something we can't
                     # even write out must never end up in the replay cache.
                     flow.response.content = llsd.format_xml(parsed_eq_resp)
-                    eq_manager.cache_last_poll_response(req_ack_id, parsed_eq_resp)
+                    eq_manager.cache_last_poll_response(req_ack_id, parsed_eq_resp, cap_data.base_url)
                 else:
                     flow.response.content = llsd.format_xml(parsed_eq_resp)
             elif cap_data.cap_name in self.UPLOAD_CREATING_CAPS:
